@@ -199,6 +199,15 @@ func (ex *Exec) calleeHasFlag(key, flag string, paramNames []string) bool {
 			hasCtx = true
 		}
 	}
+	if strings.HasPrefix(flag, "repo-mutating-without:") {
+		want := strings.TrimPrefix(flag, "repo-mutating-without:")
+		for _, n := range paramNames {
+			if n == want {
+				return false
+			}
+		}
+		return ex.reachMutating[key]
+	}
 	switch flag {
 	case "repo-mutating":
 		return ex.reachMutating[key] && !hasCtx
@@ -375,6 +384,7 @@ func (ex *Exec) havocCall(fr *Frame, st *State, key string, args []Val, sig *typ
 	if !ex.knownPure(key) {
 		ex.markEscaped(st, args)
 		ex.havocHeap(st)
+		ex.havocArgs(st, args)
 	}
 	return []Outcome{{St: st, Ret: ex.freshResults(st, sig, sanitizeName(lastSeg(key)))}}
 }
@@ -435,6 +445,8 @@ var pureFuncs = map[string]bool{
 	"strings.ToUpper": true, "strings.Count": true, "strings.Repeat": true, "strings.SplitN": true, "unicode/utf8.ValidString": true,
 	"(time.Time).After": true, "(time.Time).Before": true, "(time.Time).Sub": true, "(time.Time).Add": true, "(time.Time).IsZero": true,
 	"(time.Duration).Milliseconds": true, "(time.Duration).Seconds": true, "(time.Duration).String": true, "(time.Time).UnixNano": true,
+	"(*regexp.Regexp).MatchString": true, "regexp.Compile": true, "regexp.MustCompile": true, "(*regexp.Regexp).String": true,
+	"github.com/ARM-software/golang-utils/utils/reflection.IsEmpty": true,
 	"(fmt.Stringer).String": true, "os/user.Current": true, "os.IsTimeout": true, "os.IsExist": true, "os.IsNotExist": true, "os.IsPermission": true, "errors.Unwrap": true,
 	"time.Parse": true, "net/http.ParseTime": true, "(time.Time).Equal": true, "(time.Time).Unix": true,
 }
@@ -558,6 +570,7 @@ func (ex *Exec) applyContractNamed(fr *Frame, st *State, c *Contract, names []st
 	if eff.Heap {
 		ex.markEscaped(st, args)
 		ex.havocHeap(st)
+		ex.havocArgs(st, args)
 	}
 	for _, cl := range c.Clauses {
 		if !tagActive(cl.Tags, ex.prop) {
@@ -573,9 +586,14 @@ func (ex *Exec) applyContractNamed(fr *Frame, st *State, c *Contract, names []st
 	}
 	if !claimsGhostFrame(c, ex.prop) && !c.Extern {
 		for _, n := range ex.frameGhosts {
-			if !ex.lib.Ghosts[n].Stable {
-				st.ghost[n] = ex.declare("g_"+n, ex.lib.Ghosts[n].Sort)
+			g := ex.lib.Ghosts[n]
+			if g.Stable {
+				continue
 			}
+			if g.FsState && !ex.reachMutating[key] {
+				continue // a callee that cannot reach a mutating backend operation leaves the tree alone
+			}
+			st.ghost[n] = ex.declare("g_"+n, g.Sort)
 		}
 	}
 	// results
